@@ -137,3 +137,8 @@ unsafe extern "C" fn cglue_drop_slice_box<T>(this: &mut CSliceMut<'_, T>) {
     let extended_instance = (this as *mut CSliceMut<_>).as_mut().unwrap();
     let _ = Box::from_raw(extended_instance.as_slice_mut());
 }
+
+#[cfg(kani)]
+mod verif_kani {
+    include!(concat!(env!("H33P_CGLUE_VERIF_DIR"), "/boxed.rs"));
+}
